@@ -3,7 +3,8 @@
     [string], [ascii], [N], [Z], [positive], [nat] stay extracted datatypes.
     No [Extract Constant]. *)
 From Coq Require Extraction ExtrOcamlBasic.
-From SA Require Import Model Monitors.
+From SA Require Import Model.
+From SA.Mon Require Import C09 C07.
 Extraction Language OCaml.
 Extraction "model.ml" run binop_name prim_ty_name cmpop_name logicop_name err_kind_name all_err_kind
-  chk_C09.
+  chk_C09 chk_C07 judged_C07.
